@@ -191,3 +191,415 @@ Proof.
   intros Hn Ha. unfold step_gen, effects_gen. destruct (decide p (view d) o) as [acts|e] eqn:E; [|discriminate].
   rewrite (decide_noaction _ _ _ _ Hn Ha E). cbn. intro H. inversion H. auto.
 Qed.
+
+(* ---------------------------------------------------------------- declare *)
+
+Definition is_tag_act (x : aact) : Prop :=
+  match x with ASetTag _ _ _ _ _ | ADelTag _ _ _ _ => True | _ => False end.
+
+Lemma tag_acts_keep_decls xs : Forall is_tag_act xs ->
+  forall a s n v f, a_decl (aapply_all xs a) s n v f = a_decl a s n v f.
+Proof.
+  induction 1 as [|x xs Hx _ IH]; intros a s n v f; [reflexivity|].
+  rewrite aapply_all_cons, IH, a_decl_aapply. destruct x; cbn in Hx; try contradiction; reflexivity.
+Qed.
+
+Lemma deltags_spec rs n x f : forall a,
+  (forall s n' t' f', a_tag (aapply_all (map (fun r => ADelTag r n x f) rs) a) s n' t' f' =
+     if mem_str s rs && str_eqb n' n && str_eqb t' x && str_eqb f' f then None else a_tag a s n' t' f').
+Proof.
+  induction rs as [|r rs IH]; intros a s n' t' f'; [reflexivity|].
+  cbn [map]. rewrite aapply_all_cons, IH, a_tag_aapply. cbn [mem_str].
+  rewrite dkey_eqb_parts.
+  destruct (str_eqb_spec s r) as [->|N]; cbn [andb].
+  - destruct (mem_str r rs); cbn [andb]; destruct (str_eqb n' n && str_eqb t' x && str_eqb f' f); reflexivity.
+  - reflexivity.
+Qed.
+
+Lemma deltags_tag_acts rs n x f : Forall is_tag_act (map (fun r => ADelTag r n x f) rs).
+Proof. apply Forall_forall. intros y Hy. apply in_map_iff in Hy. destruct Hy as [r [<- _]]. exact I. Qed.
+
+(* the first part of a declaration: the record, and the tag in the target stack *)
+Definition declare_acts1 (f n v : str) (pl : dplan) : list aact :=
+  if dp_write pl
+  then ASetDecl (dp_target pl) n v f (dp_dir pl, dp_table pl) ::
+       match dp_tag pl with Some x => [ASetTag (dp_target pl) n x f v] | None => [] end
+  else [].
+
+Lemma declare_finish_unfold p a f n v pl :
+  declare_finish p a f n v pl =
+  match dp_tag pl with
+  | None => Ok (declare_acts1 f n v pl)
+  | Some x =>
+      let a1 := aapply_all (declare_acts1 f n v pl) a in
+      let acts2 := map (fun r => ADelTag r n x f) (occurrences p a1 n x f) in
+      match find_exact (aapply_all acts2 a1) [dp_target pl; dp_target pl] n v f with
+      | Some (s', _) => Ok (declare_acts1 f n v pl ++ acts2 ++ [ASetTag s' n x f v])
+      | None => Err NotFound
+      end
+  end.
+Proof. reflexivity. Qed.
+
+Lemma declare_acts1_decl f n v pl a s n' v' f' : mem_str (dp_target pl) (apath a) = true ->
+  a_decl (aapply_all (declare_acts1 f n v pl) a) s n' v' f' =
+  if dp_write pl && dkey_eqb (s, n', v', f') (dp_target pl, n, v, f) then Some (dp_dir pl, dp_table pl)
+  else a_decl a s n' v' f'.
+Proof.
+  intro Hm. unfold declare_acts1. destruct (dp_write pl); cbn [andb]; [|reflexivity].
+  rewrite aapply_all_cons.
+  assert (Ht : Forall is_tag_act match dp_tag pl with Some x => [ASetTag (dp_target pl) n x f v] | None => [] end)
+    by (destruct (dp_tag pl); repeat constructor).
+  rewrite (tag_acts_keep_decls _ Ht).
+  rewrite a_decl_aapply, Hm. reflexivity.
+Qed.
+
+Lemma declare_acts1_tag f n v pl a s n' t' f' : mem_str (dp_target pl) (apath a) = true ->
+  a_tag (aapply_all (declare_acts1 f n v pl) a) s n' t' f' =
+  match dp_tag pl with
+  | Some x => if dp_write pl && dkey_eqb (s, n', t', f') (dp_target pl, n, x, f) then Some v else a_tag a s n' t' f'
+  | None => a_tag a s n' t' f'
+  end.
+Proof.
+  intro Hm. unfold declare_acts1. destruct (dp_write pl); cbn [andb].
+  - rewrite aapply_all_cons. destruct (dp_tag pl) as [x|].
+    + rewrite aapply_all_cons. cbn [aapply_all fold_left]. rewrite a_tag_aapply, apath_aapply, Hm. cbn [andb].
+      rewrite a_tag_aapply. reflexivity.
+    + cbn [aapply_all fold_left]. rewrite a_tag_aapply. reflexivity.
+  - destruct (dp_tag pl); reflexivity.
+Qed.
+
+Lemma declare_finish_decl p a f n v pl acts : mem_str (dp_target pl) (apath a) = true ->
+  declare_finish p a f n v pl = Ok acts ->
+  forall s n' v' f',
+  a_decl (aapply_all acts a) s n' v' f' =
+  if dp_write pl && dkey_eqb (s, n', v', f') (dp_target pl, n, v, f) then Some (dp_dir pl, dp_table pl)
+  else a_decl a s n' v' f'.
+Proof.
+  intros Hm. rewrite declare_finish_unfold. destruct (dp_tag pl) as [x|] eqn:Et.
+  - cbv zeta. destruct (find_exact _ _ n v f) as [[s' r]|]; [|discriminate].
+    intro H. inversion H. subst acts. intros.
+    rewrite aapply_all_app. rewrite tag_acts_keep_decls.
+    + apply declare_acts1_decl. exact Hm.
+    + apply Forall_app. split; [apply deltags_tag_acts|repeat constructor].
+  - intro H. inversion H. subst acts. intros. apply declare_acts1_decl. exact Hm.
+Qed.
+
+Lemma find_tagged_single a r n x f : no_dangling a ->
+  is_some (find_tagged a [r] n x f) = is_some (a_tag a r n x f).
+Proof.
+  intro H. cbn [find_tagged]. destruct (a_tag a r n x f) as [v0|] eqn:E; [|reflexivity].
+  specialize (H _ _ _ _ _ E). destruct (a_decl a r n v0 f); [reflexivity|congruence].
+Qed.
+
+Lemma mem_filter_str (p : str -> bool) s l : mem_str s (filter p l) = mem_str s l && p s.
+Proof.
+  induction l as [|y l IH]; cbn; [reflexivity|].
+  destruct (p y) eqn:Ep; cbn [mem_str].
+  - destruct (str_eqb_spec s y) as [->|N]; [rewrite Ep; reflexivity|exact IH].
+  - rewrite IH. destruct (str_eqb_spec s y) as [->|N]; [|reflexivity].
+    rewrite Ep, andb_false_r. reflexivity.
+Qed.
+
+(* the tag after a declaration that assigns one (tag move collected per stack) *)
+Lemma declare_finish_tag a f n v pl acts x : no_dangling a ->
+  mem_str (dp_target pl) (apath a) = true -> dp_tag pl = Some x ->
+  declare_finish false a f n v pl = Ok acts ->
+  forall s n' t' f',
+  a_tag (aapply_all acts a) s n' t' f' =
+  if str_eqb n' n && str_eqb t' x && str_eqb f' f
+  then (if str_eqb s (dp_target pl) then Some v else if mem_str s (apath a) then None else a_tag a s n' t' f')
+  else a_tag a s n' t' f'.
+Proof.
+  intros Hnd Hm Et. rewrite declare_finish_unfold, Et. cbv zeta.
+  set (acts1 := declare_acts1 f n v pl). set (a1 := aapply_all acts1 a).
+  set (acts2 := map _ _). set (a2 := aapply_all acts2 a1).
+  destruct (find_exact a2 [dp_target pl; dp_target pl] n v f) as [[s' r]|] eqn:Ef; [|discriminate].
+  intro H. inversion H. subst acts. clear H. intros s n' t' f'.
+  assert (Hs' : s' = dp_target pl).
+  { apply find_exact_some in Ef. destruct Ef as [[<-|[<-|[]]] _]; reflexivity. }
+  subst s'.
+  assert (Hnd1 : no_dangling a1).
+  { unfold a1. apply aapply_all_no_dangling; [exact Hnd|].
+    unfold acts1, declare_acts1. destruct (dp_write pl); [|exact I]. cbn [acts_ok act_ok]. split; [exact I|].
+    rewrite Et. cbn [acts_ok act_ok]. split; [|exact I]. rewrite a_decl_setdecl_same by exact Hm. discriminate. }
+  rewrite !aapply_all_app. fold a1. fold a2. cbn [aapply_all fold_left].
+  assert (Hp1 : apath a1 = apath a) by (unfold a1; apply apath_aapply_all).
+  assert (Hp2 : apath a2 = apath a) by (unfold a2; rewrite apath_aapply_all; exact Hp1).
+  rewrite a_tag_aapply, Hp2, Hm. cbn [andb].
+  rewrite dkey_eqb_parts.
+  unfold a2, acts2. rewrite deltags_spec. unfold occurrences.
+  rewrite mem_filter_str, (find_tagged_single a1 _ _ _ _ Hnd1), Hp1.
+  unfold a1, acts1. rewrite !(declare_acts1_tag f n v pl a _ _ _ _ Hm), Et. rewrite !dkey_eqb_parts.
+  destruct (str_eqb_spec n' n) as [->|Nn]; cbn [andb];
+    [|rewrite !andb_false_r; cbn [andb]; rewrite ?andb_false_r; reflexivity].
+  destruct (str_eqb_spec t' x) as [->|Nt]; cbn [andb];
+    [|rewrite !andb_false_r; cbn [andb]; rewrite ?andb_false_r; reflexivity].
+  destruct (str_eqb_spec f' f) as [->|Nf]; cbn [andb];
+    [|rewrite !andb_false_r; cbn [andb]; rewrite ?andb_false_r; reflexivity].
+  destruct (str_eqb_spec s (dp_target pl)) as [->|Ns]; cbn [andb]; [reflexivity|].
+  rewrite !andb_false_r. rewrite !andb_true_r.
+  destruct (mem_str s (apath a)) eqn:Ep; cbn [andb]; [|reflexivity].
+  destruct (a_tag a s n x f); reflexivity.
+Qed.
+
+(* without a tag to assign, a declaration touches no tag *)
+Lemma declare_finish_notag p a f n v pl acts : dp_tag pl = None ->
+  declare_finish p a f n v pl = Ok acts ->
+  forall s n' t' f', a_tag (aapply_all acts a) s n' t' f' = a_tag a s n' t' f'.
+Proof.
+  intros Et. rewrite declare_finish_unfold, Et. intro H. inversion H. subst acts. intros.
+  unfold declare_acts1. rewrite Et. destruct (dp_write pl); [|reflexivity].
+  cbn [aapply_all fold_left]. rewrite a_tag_aapply. reflexivity.
+Qed.
+
+(* ---------------------------------------------------------------- declare, on the files *)
+
+Lemma view_target_has_stack d tg : mem_str tg (apath (view d)) = true <-> has_stack d tg = true.
+Proof. rewrite apath_view, has_stack_path. tauto. Qed.
+
+Lemma declare_step p d o n v dir table t d' :
+  o_noaction o = false -> step_gen p d (Declare o n v dir table t) = Ok d' ->
+  exists pl acts,
+    declare_plan (view d) o n v dir table t = Ok pl /\
+    declare_finish p (view d) (o_flavor o) n v pl = Ok acts /\
+    mem_str (dp_target pl) (apath (view d)) = true /\
+    (forall s n k f, db_decl d' s n k f = a_decl (aapply_all acts (view d)) s n k f) /\
+    (forall s n k f, db_tag d' s n k f = a_tag (aapply_all acts (view d)) s n k f).
+Proof.
+  intros Hn H. destruct (step_acts p d _ d' H) as [acts [Hd [H1 H2]]].
+  cbn [decide] in Hd. unfold declare_acts in Hd.
+  destruct (declare_plan (view d) o n v dir table t) as [pl|e] eqn:Ep; [|discriminate].
+  rewrite Hn in Hd. exists pl, acts. repeat split; auto.
+  apply (declare_plan_target _ _ _ _ _ _ _ _ Ep).
+Qed.
+
+Lemma declare_decls p d o n v dir table t d' :
+  o_noaction o = false -> step_gen p d (Declare o n v dir table t) = Ok d' ->
+  exists pl, declare_plan (view d) o n v dir table t = Ok pl /\
+  forall s n' v' f',
+    db_decl d' s n' v' f' =
+    if dp_write pl && dkey_eqb (s, n', v', f') (dp_target pl, n, v, o_flavor o)
+    then Some (dp_dir pl, dp_table pl) else db_decl d s n' v' f'.
+Proof.
+  intros Hn H. destruct (declare_step p d o n v dir table t d' Hn H) as [pl [acts [Hp [Hf [Hm [H1 _]]]]]].
+  exists pl. split; [exact Hp|]. intros. rewrite H1, (declare_finish_decl p _ _ _ _ _ _ Hm Hf), a_decl_view.
+  reflexivity.
+Qed.
+
+Lemma declare_tags d o n v dir table t d' :
+  no_dangling (view d) ->
+  o_noaction o = false -> step_gen false d (Declare o n v dir table t) = Ok d' ->
+  exists pl, declare_plan (view d) o n v dir table t = Ok pl /\
+  forall s n' t' f',
+    db_tag d' s n' t' f' =
+    match dp_tag pl with
+    | None => db_tag d s n' t' f'
+    | Some x =>
+        if str_eqb n' n && str_eqb t' x && str_eqb f' (o_flavor o)
+        then (if str_eqb s (dp_target pl) then Some v else None)
+        else db_tag d s n' t' f'
+    end.
+Proof.
+  intros Hnd Hn H. destruct (declare_step false d o n v dir table t d' Hn H) as [pl [acts [Hp [Hf [Hm [_ H2]]]]]].
+  exists pl. split; [exact Hp|]. intros. rewrite H2. destruct (dp_tag pl) as [x|] eqn:Et.
+  - rewrite (declare_finish_tag _ _ _ _ _ _ x Hnd Hm Et Hf), a_tag_view.
+    destruct (str_eqb n' n && str_eqb t' x && str_eqb f' (o_flavor o)); [|reflexivity].
+    destruct (str_eqb s (dp_target pl)); [reflexivity|].
+    rewrite apath_view, has_stack_path. destruct (has_stack d s) eqn:Es; [reflexivity|].
+    apply db_tag_no_stack. exact Es.
+  - rewrite (declare_finish_notag _ _ _ _ _ _ _ Et Hf), a_tag_view. reflexivity.
+Qed.
+
+(* what the plan is in the cases the property names *)
+Lemma decl_findable a tg n v f r : mem_str tg (apath a) = true -> a_decl a tg n v f = Some r ->
+  findable a n (fallbacks f) = true.
+Proof.
+  intros Hm Hd. unfold findable.
+  destruct (decl_versions a (apath a) (fallbacks f) n) as [|x l] eqn:E; [|reflexivity].
+  exfalso. assert (Hin : In (v, f) (decl_versions a (apath a) (fallbacks f) n)).
+  { apply decl_versions_In. exists tg. repeat split; [exact Hm| |congruence].
+    cbn. rewrite str_eqb_refl. reflexivity. }
+  rewrite E in Hin. exact Hin.
+Qed.
+
+Definition declare_target (a : adb) (o : opts) : option str :=
+  match o_stack o with Some s => Some s | None => hd_error (apath a) end.
+
+Lemma plan_explicit a o n v dir tb t tg : declare_target a o = Some tg -> mem_str tg (apath a) = true ->
+  declare_plan a o n v (Some dir) (Some tb) t =
+  let t1 := match t with Some x => Some x | None => if findable a n (fallbacks (o_flavor o)) then None else Some current end in
+  match a_decl a tg n v (o_flavor o) with
+  | Some r' =>
+      if o_force o then Ok (mkPlan dir tb tg t1 true)
+      else if vrec_eqb (dir, tb) r' then Ok (mkPlan dir tb tg t1 false)
+      else match t1 with Some _ => Ok (mkPlan dir tb tg t1 false) | None => Err Refused end
+  | None => Ok (mkPlan dir tb tg t1 true)
+  end.
+Proof.
+  unfold declare_target, declare_plan. intros Ht Hm.
+  assert (Hi : match t with Some _ => @None (str * vrec) | None => None end = None) by (destruct t; reflexivity).
+  destruct t as [x|]; cbv zeta; rewrite Ht, Hm; reflexivity.
+Qed.
+
+(* ---------------------------------------------------------------- undeclare, tags *)
+
+Lemma undeclare_target_found a o n vo s' v : undeclare_target a o n vo = Ok (s', v) ->
+  exists r, a_decl a s' n v (o_flavor o) = Some r /\ In s' (roots_of a (o_stack o)).
+Proof.
+  unfold undeclare_target.
+  destruct (match vo with Some v0 => Ok v0 | None => _ end) as [v0|e]; [|discriminate].
+  destruct (find_exact a _ n v0 _) as [[s0 r]|] eqn:E; [|discriminate].
+  intro H. inversion H. subst. apply find_exact_some in E. destruct E. eauto.
+Qed.
+
+Lemma undeclare_step p d o n vo d' :
+  o_noaction o = false -> step_gen p d (Undeclare o n vo) = Ok d' ->
+  exists s' v r,
+    undeclare_target (view d) o n vo = Ok (s', v) /\
+    db_decl d s' n v (o_flavor o) = Some r /\
+    (forall s n' v' f', db_decl d' s n' v' f' =
+       if dkey_eqb (s, n', v', f') (s', n, v, o_flavor o) then None else db_decl d s n' v' f') /\
+    (forall s n' t f', db_tag d' s n' t f' =
+       if str_eqb s s' && str_eqb n' n && str_eqb f' (o_flavor o) && opt_str_eqb (db_tag d s n' t f') v
+       then None else db_tag d s n' t f').
+Proof.
+  intros Hn H. destruct (step_acts p d _ d' H) as [acts [Hd [H1 H2]]].
+  cbn [decide] in Hd. unfold undeclare_acts in Hd.
+  destruct (undeclare_target (view d) o n vo) as [[s' v]|e] eqn:Et; [|discriminate].
+  rewrite Hn in Hd. inversion Hd. subst acts.
+  destruct (undeclare_target_found _ _ _ _ _ _ Et) as [r [Hr _]].
+  exists s', v, r. split; [reflexivity|]. rewrite <- a_decl_view. split; [exact Hr|]. split; intros.
+  - rewrite H1. cbn [aapply_all fold_left]. rewrite a_decl_aapply, Hr, a_decl_view. reflexivity.
+  - rewrite H2. cbn [aapply_all fold_left]. rewrite a_tag_aapply, Hr. cbn [is_some andb].
+    unfold tag_points. rewrite !a_tag_view. reflexivity.
+Qed.
+
+Lemma remove_is_undeclare a o n v :
+  remove_acts a o n v = undeclare_acts a (mkOpts (o_flavor o) None (o_force o) (o_noaction o)) n (Some v).
+Proof.
+  unfold remove_acts. destruct (find_exact a (apath a) n v (o_flavor o)) eqn:E; [reflexivity|].
+  unfold undeclare_acts, undeclare_target. cbn [o_flavor o_stack roots_of]. rewrite E. reflexivity.
+Qed.
+
+Lemma assign_step p d o t n v d' : step_gen p d (AssignTag o t n v) = Ok d' ->
+  exists s' r,
+    find_exact (view d) (roots_of (view d) (o_stack o)) n v (o_flavor o) = Some (s', r) /\
+    (forall s n' v' f', db_decl d' s n' v' f' = db_decl d s n' v' f') /\
+    (forall s n' t' f', db_tag d' s n' t' f' =
+       if dkey_eqb (s, n', t', f') (s', n, t, o_flavor o) then Some v else db_tag d s n' t' f').
+Proof.
+  intro H. destruct (step_acts p d _ d' H) as [acts [Hd [H1 H2]]].
+  cbn [decide] in Hd. unfold assign_acts in Hd.
+  destruct (find_exact (view d) _ n v _) as [[s' r]|] eqn:E; [|discriminate].
+  inversion Hd. subst acts. exists s', r. split; [reflexivity|].
+  apply find_exact_some in E. destruct E as [_ E].
+  assert (Hm : mem_str s' (apath (view d)) = true).
+  { apply view_target_has_stack. rewrite a_decl_view in E. apply (db_decl_has_stack _ _ _ _ _ _ E). }
+  split; intros.
+  - rewrite H1. cbn [aapply_all fold_left]. rewrite a_decl_aapply. apply a_decl_view.
+  - rewrite H2. cbn [aapply_all fold_left]. rewrite a_tag_aapply, Hm, a_tag_view. reflexivity.
+Qed.
+
+Lemma unassign_step p d o t n vo d' : step_gen p d (UnassignTag o t n vo) = Ok d' ->
+  (forall s n' v' f', db_decl d' s n' v' f' = db_decl d s n' v' f') /\
+  exists so : option str,
+    forall s n' t' f', db_tag d' s n' t' f' =
+      if match so with Some s0 => dkey_eqb (s, n', t', f') (s0, n, t, o_flavor o) | None => false end
+      then None else db_tag d s n' t' f'.
+Proof.
+  intro H. destruct (step_acts p d _ d' H) as [acts [Hd [H1 H2]]].
+  cbn [decide] in Hd. destruct (unassign_acts_shape _ _ _ _ _ _ Hd) as [->|[s0 ->]].
+  - split; [intros; rewrite H1; apply a_decl_view|]. exists None. intros. rewrite H2. apply a_tag_view.
+  - split; [intros; rewrite H1; cbn [aapply_all fold_left]; rewrite a_decl_aapply; apply a_decl_view|].
+    exists (Some s0). intros. rewrite H2. cbn [aapply_all fold_left]. rewrite a_tag_aapply, a_tag_view. reflexivity.
+Qed.
+
+Lemma find_tagged_unique a roots n x f tg v :
+  In tg roots -> a_decl a tg n v f <> None ->
+  (forall s, In s roots -> a_tag a s n x f = if str_eqb s tg then Some v else None) ->
+  find_tagged a roots n x f = Some (tg, v).
+Proof.
+  induction roots as [|s0 rs IH]; intros Hin Hd Ht; [contradiction|].
+  cbn [find_tagged]. rewrite (Ht s0 (or_introl eq_refl)).
+  destruct (str_eqb_spec s0 tg) as [->|N].
+  - destruct (a_decl a tg n v f); [reflexivity|congruence].
+  - apply IH; [destruct Hin; [contradiction|assumption]|exact Hd|]. intros s Hs. apply Ht. right. exact Hs.
+Qed.
+
+Lemma declare_plan_tag a o n v dir table x pl :
+  declare_plan a o n v dir table (Some x) = Ok pl -> dp_tag pl = Some x.
+Proof.
+  unfold declare_plan.
+  repeat match goal with
+         | |- context [match ?x with _ => _ end] => destruct x eqn:?; try discriminate
+         end; intro H; inversion H; reflexivity.
+Qed.
+
+Lemma plan_default_table a o n v dir tg : declare_target a o = Some tg -> mem_str tg (apath a) = true ->
+  declare_plan a o n v (Some dir) None None =
+  let tb := default_table dir n in
+  let t1 := if findable a n (fallbacks (o_flavor o)) then None else Some current in
+  match a_decl a tg n v (o_flavor o) with
+  | Some r' =>
+      if o_force o then Ok (mkPlan dir tb tg t1 true)
+      else if vrec_eqb (dir, tb) r' then Ok (mkPlan dir tb tg t1 false)
+      else match t1 with Some _ => Ok (mkPlan dir tb tg t1 false) | None => Err Refused end
+  | None => Ok (mkPlan dir tb tg t1 true)
+  end.
+Proof.
+  unfold declare_target, declare_plan. intros Ht Hm. cbv zeta. rewrite Ht, Hm. reflexivity.
+Qed.
+
+Lemma path_step p d o d' : step_gen p d o = Ok d' -> map fst d' = map fst d.
+Proof.
+  unfold step_gen. destruct (effects_gen p d o); [|discriminate]. intro H. inversion H. apply path_apply.
+Qed.
+
+Lemma step_no_dangling p d o d' : no_dangling (view d) -> step_gen p d o = Ok d' -> no_dangling (view d').
+Proof.
+  intros H E. pose proof (step_total_no_dangling p d o H) as H1. unfold step_total in H1. rewrite E in H1. exact H1.
+Qed.
+
+Lemma no_dangling_db d : no_dangling (view d) <->
+  forall s n t f v, db_tag d s n t f = Some v -> db_decl d s n v f <> None.
+Proof.
+  unfold no_dangling. split; intros H s n t f v Hv.
+  - rewrite <- a_decl_view. apply (H s n t f v). rewrite a_tag_view. exact Hv.
+  - rewrite a_decl_view. apply (H s n t f v). rewrite <- a_tag_view. exact Hv.
+Qed.
+
+(* ---------------------------------------------------------------- declare raises before it writes *)
+
+Lemma declare_plan_nowrite a o n v dir table t pl :
+  declare_plan a o n v dir table t = Ok pl -> dp_write pl = false ->
+  a_decl a (dp_target pl) n v (o_flavor o) <> None.
+Proof.
+  unfold declare_plan.
+  repeat match goal with
+         | |- context [match ?x with _ => _ end] => destruct x eqn:?; try discriminate
+         end; intro H; inversion H; subst; cbn [dp_write dp_target]; intro Hw; try discriminate; congruence.
+Qed.
+
+Lemma declare_finish_total p a f n v pl :
+  mem_str (dp_target pl) (apath a) = true ->
+  (dp_write pl = false -> a_decl a (dp_target pl) n v f <> None) ->
+  exists acts, declare_finish p a f n v pl = Ok acts.
+Proof.
+  intros Hm Hw. rewrite declare_finish_unfold. destruct (dp_tag pl) as [x|]; [|eauto]. cbv zeta.
+  cbn [find_exact]. rewrite (tag_acts_keep_decls _ (deltags_tag_acts _ _ _ _)).
+  rewrite (declare_acts1_decl f n v pl a _ _ _ _ Hm), dkey_eqb_refl, andb_true_r.
+  destruct (dp_write pl); [eauto|].
+  destruct (a_decl a (dp_target pl) n v f) eqn:E; [eauto|]. exfalso. apply Hw; reflexivity.
+Qed.
+
+Lemma declare_error_is_planning_error p a o n v dir table t e :
+  decide p a (Declare o n v dir table t) = Err e -> declare_plan a o n v dir table t = Err e.
+Proof.
+  cbn [decide]. unfold declare_acts. destruct (declare_plan a o n v dir table t) as [pl|e'] eqn:Ep.
+  - destruct (o_noaction o); [discriminate|].
+    destruct (declare_finish_total p a (o_flavor o) n v pl) as [acts Ha].
+    + apply (declare_plan_target _ _ _ _ _ _ _ _ Ep).
+    + apply (declare_plan_nowrite _ _ _ _ _ _ _ _ Ep).
+    + rewrite Ha. discriminate.
+  - intro H. inversion H. reflexivity.
+Qed.
